@@ -3,6 +3,8 @@
 //! verdict, output and prefix relation are compared. API level: no hooks.
 use std::collections::BTreeMap;
 use std::panic::{catch_unwind, AssertUnwindSafe};
+use std::sync::atomic::{AtomicU64, Ordering};
+use std::sync::Mutex;
 
 use crate::util::*;
 
@@ -17,6 +19,34 @@ pub const MSGPACK_TOKENS: [&[u8]; 27] = [
 	&[0xc3], &[0xc4], &[0xc7], &[0xcc], &[0xcd], &[0xd0], &[0xd4], &[0xd9], &[0xdc], &[0xdd], &[0xde], &[0xdf], &[0xe0],
 	&[0xff],
 ];
+
+/// Progress counter and the case being run, for the watchdog.
+static BEAT: AtomicU64 = AtomicU64::new(0);
+static CURRENT: Mutex<String> = Mutex::new(String::new());
+
+/// Aborts the process when one case makes no progress for `secs` seconds,
+/// naming the case: a hang must be reported with its input, not waited out.
+pub fn start_watchdog(secs: u64) {
+	std::thread::spawn(move || {
+		let mut last = BEAT.load(Ordering::Relaxed);
+		let mut idle = 0;
+		loop {
+			std::thread::sleep(std::time::Duration::from_secs(1));
+			let now = BEAT.load(Ordering::Relaxed);
+			if now == last {
+				idle += 1;
+				if idle >= secs {
+					let cur = CURRENT.lock().map(|c| c.clone()).unwrap_or_default();
+					println!("{}", serde_json::json!({"hang": cur, "after_cases": now}));
+					std::process::exit(3);
+				}
+			} else {
+				idle = 0;
+				last = now;
+			}
+		}
+	});
+}
 
 /// The outcome of one translation: verdict, bytes written, error text.
 pub fn translate(data: &[u8], reader: Option<Sched>, from: Option<xt::Format>, to: xt::Format) -> (u8, Vec<u8>, String) {
@@ -124,6 +154,15 @@ pub struct Stats {
 }
 
 fn check(st: &mut Stats, fmt_name: &str, from: xt::Format, to: xt::Format, data: &[u8], rng: &mut Rng) {
+	if st.cases % 64 == 0 {
+		BEAT.fetch_add(1, Ordering::Relaxed);
+	}
+	if let Ok(mut c) = CURRENT.try_lock() {
+		c.clear();
+		c.push_str(fmt_name);
+		c.push(' ');
+		c.push_str(&hex(data));
+	}
 	let s = translate(data, None, Some(from), to);
 	let sched = match rng.below(3) {
 		0 => Sched::Fixed(1),
@@ -216,6 +255,7 @@ pub fn run(seed: u64, tier: &str) -> Stats {
 		max_len: BTreeMap::new(),
 	};
 	let mut rng = Rng::new(seed ^ 0x7031);
+	start_watchdog(15);
 	let (lj, ly, lm) = if tier == "thorough" { (6, 5, 5) } else { (5, 4, 4) };
 	enumerate(&mut st, "json", &JSON_TOKENS, lj, xt::Format::Json, xt::Format::Msgpack, &mut rng);
 	enumerate(&mut st, "yaml", &YAML_TOKENS, ly, xt::Format::Yaml, xt::Format::Json, &mut rng);
